@@ -138,6 +138,8 @@ def run(ctx):
         ctx.violation("crun-build", "the extracted model runner does not build: " + str(err)[:200], {"broken": "extraction"}, found_input=False)
         return
     quick = ctx.tier == "quick"
+    from props import c02 as _c02
+    _c02.proofs(ctx, "C06.v", deps=("Machine/Select.vo", "Machine/Eof.vo", "CSkel/Run.vo"))   # property theorems: build + Print Assumptions audit
     rng = ctx.rng
     progs = [(n, s, f) for n, s, f in nm.corpus() if quick is False or n not in ("gtfs-realtime", "ttc_rdf", "http")]
     for i in range(40 if quick else 600):
